@@ -77,6 +77,8 @@ pub struct Stepper {
     /// "late loop" schedule: when the loop is not blocked, one iteration covers this many
     /// milliseconds (handle_time_ticks then calls tick_ms(n) once). 1 = an iteration per ms.
     pub batch: u64,
+    /// stop the run (flood flag) once this many outputs have been recorded
+    pub out_limit: usize,
     /// ticks the output recorder has counted so far / ticks covered by the tick_ms call being drained
     rec_ticks: u64,
     cur_n: u64,
@@ -145,6 +147,7 @@ impl Stepper {
             probes: Probes::default(),
             flood: false,
             batch: 1,
+            out_limit: usize::MAX,
             rec_ticks: 0,
             cur_n: 1,
             tick_err: None,
@@ -229,6 +232,9 @@ impl Stepper {
                 }
                 self.trace.outs.push(e);
             }
+        }
+        if self.trace.outs.len() > self.out_limit {
+            self.flood = true;
         }
     }
 
